@@ -59,8 +59,27 @@ pub struct Builder {
 
 const EQU_VALUES: [i64; 4] = [5, 0, 300, -2];
 
+/// A condition that parses but cannot be evaluated: only legal where the documentation says the
+/// condition is never looked at (an arm after a taken one, anything inside an unselected branch).
+fn unevaluable(style: u8) -> Cond {
+    Cond::Expr(match style % 5 {
+        0 => E::bin(BinOp::Gt, E::sym("undefined_sym_c08"), E::Num(3)),
+        1 => E::bin(BinOp::Div, E::Num(1), E::Num(0)),
+        2 => E::bin(BinOp::Rem, E::Num(10), E::sym("ce1")),
+        3 => E::bin(BinOp::Shl, E::Num(1), E::Num(70)),
+        _ => E::bin(BinOp::Mul, E::Num(i64::MAX), E::sym("ce0")),
+    })
+}
+
 fn condition(truth: bool, style: u8, first: bool) -> Cond {
     let t = truth;
+    // negative values are true as well
+    match style % 32 {
+        29 => return Cond::Expr(if t { E::num(-1) } else { E::Num(0) }),
+        30 => return Cond::Expr(if t { E::sym("ce3") } else { E::sym("ce1") }),
+        31 => return Cond::Expr(E::bin(BinOp::Sub, E::sym("ce0"), E::Num(if t { 9 } else { 5 }))),
+        _ => {}
+    }
     match style % if first { 9 } else { 7 } {
         0 => Cond::Expr(E::Num(if t { 1 } else { 0 })),
         1 => Cond::Expr(E::Num(if t { 7 } else { 0 })),
@@ -148,7 +167,8 @@ impl Builder {
         let mut arms = vec![];
         for (i, (truth, style, body)) in c.arms.iter().enumerate() {
             // conditions in unselected regions are still well-formed (unevaluable ones come as poison)
-            let cnd = condition(*truth, *style, i == 0);
+            let never_evaluated = !selected || taken;
+            let cnd = if never_evaluated && *style % 3 == 0 { unevaluable(*style / 3) } else { condition(*truth, *style, i == 0) };
             let sel = selected && !taken && *truth;
             if sel {
                 taken = true;
